@@ -8,7 +8,7 @@
 (*          globals : Seq([name, off, bytes])]      (scalar / element / member)    *)
 (*   nat : [outcome, ret, exit, calls, globals : Seq([name, bytes])]  (whole object)*)
 (* Only executions the C standard fully defines (status "ok") are judged.          *)
-EXTENDS Naturals, Sequences, Json, IOUtils, TLC
+EXTENDS Integers, Sequences, Json, IOUtils, TLC
 Recs == JsonDeserialize(IOEnv.TRACE_FILE)
 NChunks == 64
 VARIABLES chunk, i
